@@ -34,5 +34,6 @@ run revert_fix_F7 mutants/revert_fix_F7.diff C12
 run revert_fix_F9 mutants/revert_fix_F9.diff C17
 run revert_fix_F10 mutants/revert_fix_F10.diff C12   # reverts F11 and F10 together (F11 alone makes F10's flag redundant)
 run revert_fix_F11 mutants/revert_fix_F11.diff C12
+run revert_fix_F12 mutants/revert_fix_F12.diff C10   # stale-gossip panics F3d-f (quick) and the silent divergence F12 (thorough)
 for d in seeded/C* seeded/r[0-9]-C*; do [ -f $d/patch.diff ] || continue; n=$(basename $d); id=${n##*-}; ids=$id; [ "$n" = "r4-C17" ] && ids="C17 C09"; [ "$n" = "r5-C10" ] && ids="C10 C17"; run seed-$n $d/patch.diff "$ids"; done
 echo "corpus: $total changes, $miss missed (seed $SEED)"
